@@ -34,3 +34,10 @@ def src_facts():
     base = pyast.module('replicat/backends/base.py')
     out.append(f'Definition DEFAULT_STREAM_CHUNK_SIZE : N := {int(pyast.module_const(base, "DEFAULT_STREAM_CHUNK_SIZE"))}%N.')
     return '\n'.join(out) + '\n'
+
+
+# per-property unit files translate/units_*.py register further units with @unit
+import importlib as _il, pkgutil as _pk, translate as _t
+for _m in sorted(_pk.iter_modules(_t.__path__), key=lambda m: m.name):
+    if _m.name.startswith('units_'):
+        _il.import_module('translate.' + _m.name)
